@@ -1778,7 +1778,7 @@ def extra_sites(g):
         for fn, stepfn, it1, it2, expect in fns:
             with g.tolerate(["Stepper"]):
                 site = "%s::%s" % (TEMPER, fn)
-                f = src.fn(fn, site, expect=expect, nth=expect - 1)   # the trait declaration of the parallel driver has no body: Source.fns lists bodies only
+                f = src.fn(fn, site)   # (the trait declaration of the parallel driver has no body: Source.fns lists bodies only)
                 fb = src.body(f)
                 base = f["body0"] + 1
                 sk = re.search(r"let mut energy_acc = vec!\[0\.0; self\.num_graphs\(\)\];\s*let mut remaining_timesteps = ([^;]*);\s*let mut time_to_swap = ([^;]*);\s*let mut time_to_sample = ([^;]*);\s*"
@@ -1856,8 +1856,8 @@ def extra_sites(g):
         f = src.fn("calculate_flip_prob", site)
         fb = src.body(f)
         ms = list(re.finditer(r"if (mult [^{]*?) \{\s*mult = ([^;]*);\s*break;\s*\}", fb))
-        if len(ms) != 2 or len(re.findall(r"\bbreak;", fb)) != 2:
-            raise Unknown(site, "expected exactly two `if mult … { mult = …; break; }` early exits (and no other `break`), found %d" % len(ms))
+        if len(ms) != 2 or len(re.findall(r"\bbreak;", fb)) != 3 or len(re.findall(r"\bmult\s*[-+*/]?=(?!=)", fb)) != 6:
+            raise Unknown(site, "expected exactly two `if mult … { mult = …; break; }` early exits (one further `break`: the jump to the end; six assignments to `mult` in all), found %d" % len(ms))
         items = []
         for k, m in enumerate(ms):
             with g.tolerate(["Rvb"]) as t:
@@ -1877,7 +1877,7 @@ def extra_sites(g):
     def _r3():
         src = g.file(RVB)
         site = RVB + "::pop_index"
-        f = src.fn("pop_index", site, expect=2, nth=1)   # nth 0 is … (trait declarations have no body); the impl for WeightedBoundaryManager
+        f = src.fn("pop_index", site)   # the impl for WeightedBoundaryManager (the trait declaration has no body)
         fb = src.body(f)
         base = f["body0"] + 1
         m = one_match(fb, r"let total_weight =\s*([^;]*);", site, "let total_weight = …;")
@@ -1892,7 +1892,7 @@ def extra_sites(g):
                     "let (v, w) = *boundary.get_random(rng).unwrap();"):
             need(fb, lit, site)
         site = RVB + "::push_adjacent"
-        f = src.fn("push_adjacent", site, expect=2, nth=1)
+        f = src.fn("push_adjacent", site)
         fb = src.body(f)
         base = f["body0"] + 1
         ms = list(re.finditer(r"let weight = ([^;]*);", fb))
@@ -2302,7 +2302,9 @@ def same(g, items, what):
     return major
 
 
-PRELUDE = """namespace Qmc.Gen
+PRELUDE = """set_option linter.unusedVariables false   -- a site's environment is listed in full even where the expression ignores part of it
+
+namespace Qmc.Gen
 
 /-- `f64::abs` on exact rationals (fixed part of the translation) -/
 def fabs (x : Rat) : Rat := if x < 0 then -x else x
